@@ -155,6 +155,12 @@ func materialise(dir string, s *cmdScenario, rng *rand.Rand) []string {
 		win = []string{"--digits", "-2147483648"}
 	case "lastHuge":
 		win = []string{"--last", "9223372036854775807", "--days"}
+	case "remapNew": // the swapped counterparts (Liabilities:Bank, Income:Food) occur nowhere in the journal
+		win = []string{"--remap", "Bank|Food"}
+	case "remapAll":
+		win = []string{"--remap", ".", "-m", "1,^(Assets|Liabilities)"}
+	case "filters":
+		win = []string{"--account", "^(Assets|Expenses)", "--commodity", "CHF|USD", "--diff", "--months"}
 	}
 	v := []string{"-v", "CHF"}
 	switch s.Sc.Flags {
